@@ -106,6 +106,18 @@ type SpecSet struct {
 	Ghosts    map[string]*GhostVar
 	Files     []string
 	Lemmas    []*LemmaSpec
+	Structs   []*StructSpec
+}
+
+// StructSpec is a structural obligation decided on the SSA without a solver.
+type StructSpec struct {
+	Property string
+	Kind     string
+	Subject  string
+	Items    []string
+	PkgPath  string
+	Line     int
+	File     string
 }
 
 type SExpr interface{}
@@ -178,6 +190,21 @@ func (ss *SpecSet) loadFile(path, pkgPath string) error {
 			cur = nil
 		case "load":
 			cur = nil // extra root package; handled by discoverContracts
+		case "structural":
+			// structural <kind> <subject>: item, item, ...   (kinds: writers, callers, nocall)
+			cur = nil
+			j := strings.Index(rest, ":")
+			if j < 0 {
+				return fmt.Errorf("%s:%d: structural needs 'kind subject: items'", path, ln)
+			}
+			kind, subj := splitWord(rest[:j])
+			st := &StructSpec{Property: prop, Kind: kind, Subject: strings.TrimSpace(subj), PkgPath: pkgPath, Line: ln, File: path}
+			for _, it := range splitTop(rest[j+1:], ',') {
+				if it = strings.TrimSpace(it); it != "" {
+					st.Items = append(st.Items, it)
+				}
+			}
+			ss.Structs = append(ss.Structs, st)
 		case "package":
 			// assumed contracts on dependencies: switch the package the following
 			// blocks are keyed under
